@@ -1,4 +1,5 @@
 import MaddyVerif.Model.DkimWire
+import MaddyVerif.Model.DkimKeys
 import Driver.Util
 import Driver.C08Sha
 namespace Driver.C08
@@ -118,6 +119,85 @@ def chain (mode : String) (h : List Bytes) (body : Bytes) : String :=
     | .ok v => s!"hdr={sha (spool h)} payload={p.length}:{sha p} c={canonName v.hc}/{canonName v.bc} h={v.hkeys.length} bh={sha v.bodyCanon} hh={sha v.digestInput}{acc}"
     | .error e => s!"hdr={sha (spool h)} payload={p.length}:{sha p} err {showVErr e}{acc}"
 
+/-! ### `keys`: a history of `Init`s of modify.dkim on one (initially empty) key directory
+
+`keys <template> <selector> | <domain>=<normal form> … | <step> …`; a step is `I<a><i>.<j>…` (an
+instance configured with the template and the domains of these indices, `newkey_algo` `a`: `r` =
+rsa2048, `e` = ed25519) or `L<a><i>` (an instance for domain `i` alone whose `key_path` is the
+key path of that domain written out).  Per step: the files created (`k:` key, `r:` record; sorted)
+and, per configured domain, the file in which the key it signs with was created and the key type. -/
+
+open MaddyVerif.DkimKeys in
+def algoOf : Char → Option Algo
+  | 'r' => some .rsa
+  | 'e' => some .ed25519
+  | _ => none
+
+open MaddyVerif.DkimKeys in
+def algoName : Algo → String
+  | .rsa => "rsa"
+  | .ed25519 => "ed25519"
+
+open MaddyVerif.DkimKeys in
+structure KStep where
+  lit : Bool
+  algo : Algo
+  idx : List Nat
+
+def kstep? (s : String) : Option KStep :=
+  match s.toList with
+  | k :: a :: rest =>
+    if k != 'L' && k != 'I' then none else
+    match algoOf a, ((String.ofList rest).splitOn ".").mapM String.toNat? with
+    | some al, some ix => if k == 'L' && ix.length != 1 then none else some ⟨k == 'L', al, ix⟩
+    | _, _ => none
+  | _ => none
+
+open MaddyVerif.DkimKeys in
+def keyPathOf (fs : FS) (id : Nat) : String :=
+  match fs.find? (fun e => match e.2 with | .key i _ => i == id | _ => false) with
+  | some e => hexBytes e.1
+  | none => "?"
+
+open MaddyVerif.DkimKeys in
+def showNew (fs : FS) : String :=
+  let l := fs.map (fun e => (match e.2 with | .key _ _ => "k:" | .txt _ _ => "r:") ++ hexBytes e.1)
+  if l.isEmpty then "-" else ",".intercalate (l.toArray.qsort (· < ·)).toList
+
+open MaddyVerif.DkimKeys in
+def keysRun (tmpl sel : Bytes) (doms : List (Bytes × Bytes)) : List KStep → FS → Nat → Option (List String)
+  | [], _, _ => some []
+  | st :: rest, fs, n =>
+    match st.idx.mapM (fun i => doms[i]?) with
+    | none => none
+    | some ds =>
+      let t := if st.lit then (match ds with | d :: _ => expand d.1 sel tmpl | [] => tmpl) else tmpl
+      let r := init ⟨t, sel, st.algo, ds⟩ fs n
+      let new := r.fs.take (r.fs.length - fs.length)
+      let use := ds.map (fun d => match r.signers.lookup d.2 with
+        | some (id, a) => keyPathOf r.fs id ++ ":" ++ algoName a
+        | none => "none")
+      let line := match r.err with
+        | none => "ok new=" ++ showNew new ++ " use=" ++ (if use.isEmpty then "-" else ",".intercalate use)
+        | some _ => "err:pem new=" ++ showNew new
+      (keysRun tmpl sel doms rest r.fs r.next).map (line :: ·)
+
+def domPair? (s : String) : Option (Bytes × Bytes) :=
+  match s.splitOn "=" with
+  | [a, b] =>
+    match unhexBytes? a, unhexBytes? b with
+    | some x, some y => some (x, y)
+    | _, _ => none
+  | _ => none
+
+def keysOp (tmpl sel : String) (doms steps : List String) : String :=
+  match unhexBytes? tmpl, unhexBytes? sel, doms.mapM domPair?, steps.mapM kstep? with
+  | some t, some s, some ds, some sts =>
+    match keysRun t s ds sts [] 0 with
+    | some ls => " ; ".intercalate ls
+    | none => "bad-op"
+  | _, _, _, _ => "bad-op"
+
 def splitHash (toks : List String) : List String × List String :=
   (toks.takeWhile (· != "#"), (toks.dropWhile (· != "#")).drop 1)
 
@@ -134,6 +214,7 @@ def handle (toks : List String) : String :=
     | _, _ => "bad-op"
   | _ =>
   match c08groups toks with
+  | [["keys", tmpl, sel], doms, steps] => keysOp tmpl sel doms steps
   | ["fts" :: ov, sg, fields] =>
     match bytesList? ov, bytesList? sg, bytesList? fields with
     | some ov, some sg, some fields => showList (fieldsToSign ov sg (fields.map gmKey))
